@@ -474,6 +474,7 @@ pub fn run(run: &Run) {
     run.assume("a batch is one operation: a crash image must show all or none of it");
     run.set_rule("history", "history of upsert/delete/batch(may fail)/checkpoint/clean-reopen/crash-reopen (continue from any recorded image, so crash-recover cycles nest) over 6 keys, rotation threshold 4..16 via hook (or 1000 natural), 4 flush policies; every crash image is reopened and compared with the states S_acked..S_issued of the reference model; non-trivial = an image taken inside an operation, or a rotation/checkpoint happened; evaluations = histories, counters report images");
     let sh = shards_for(run.tier);
+    run.max_shrink.store(300, std::sync::atomic::Ordering::Relaxed);
     run.prop("history", run.tier.pick(80, 1500), sh, case(run.tier.pick(30, 120)), run_case);
     if run.tier == Tier::Thorough {
         // natural rotation at 1000 entries
